@@ -171,7 +171,11 @@ func genReplay(c *lib.Ctx, dir string) error {
 	total := 0
 	lib.Parallel(len(cfgs), 2, func(ci int) {
 		b := cfgs[ci]
-		r, err := c.TLC(fmt.Sprintf("MCPVector(bases=%v)", b.Bases), lib.TLCRun{Dir: dir, Module: "MCPVector", Workers: 2, Timeout: 14 * time.Minute, HeapGB: 6,
+		workers := 2
+		if b.Refine && c.Thorough() { // by far the largest run (958 k transitions with the refinement invariants)
+			workers = 4
+		}
+		r, err := c.TLC(fmt.Sprintf("MCPVector(bases=%v)", b.Bases), lib.TLCRun{Dir: dir, Module: "MCPVector", Workers: workers, Timeout: 14 * time.Minute, HeapGB: 6,
 			Files: map[string][]byte{"MCPVector.cfg": b.cfg()}})
 		if err == nil && r.ErrKind != "" {
 			err = lib.Infra("the vector model (bases %v) violates its own property %s %s:\n%s", b.Bases, r.ErrKind, r.ErrName, r.ErrTrace)
